@@ -106,6 +106,13 @@ InitBigMut == /\ mode = "bytes"
               /\ \E n \in Big : \E v \in BigValues(ty, n) : LET e == Enc(T0(ty), v) IN
                     e.ok /\ bs \in Truncations(e.bytes) \cup {[e.bytes EXCEPT ![i] = b] : i \in 1..Len(e.bytes), b \in BigSubst}
 
+\* dictionaries with repeated keys anywhere among the announced entries, with one more entry behind them (bytes that are not the
+\* dictionary's): a repeated key is refused however the entries go on
+DupKeys == {7, 9, 200}
+InitDupKeys == /\ mode = "bytes" /\ ty \in {"dict_u8_u8", "hdict_u8_u8"} /\ val = 0
+               /\ \E n \in 2..3 : \E ks \in [1..(n + 1) -> DupKeys] :
+                     bs = EncVarUInt(FromNat(n)).bytes \o [j \in 1..(2 * (n + 1)) |-> IF j % 2 = 1 THEN ks[(j + 1) \div 2] ELSE j]
+
 \* sizes the input merely announces: a container whose count / length prefix is 2^k, followed by 0..2 bytes
 Containers == {n \in TypeNames : TypeOf(n).k \in {"string", "seq", "dict"}}
 InitAnnounce == /\ mode = "bytes"
